@@ -12,8 +12,10 @@ that is not overwritten by a write completed before the read began.
 Further families (`c14_store.py`): a real `BTree` (orders 3–5; scrambled insertion orders, sweeps of overwrites
 that hit separator / median keys at the moment a full node is split, deletes, re-inserts; sequential clients
 and clients overlapping in simulated time), a real `KVStore` without capacity limit, and a real
-`TransactionManager` over either (2–5 transactions at READ_COMMITTED / SNAPSHOT_ISOLATION / SERIALIZABLE, with
-write-skew, r-w-cycle, lost-update and long-reader patterns whose commit calls are 0–20 µs apart, i.e. inside
+`TransactionManager` over either of them or over a real `LSMTree` (memtable 1–3, so that commits flush and compact and
+reads pay page-read latencies while other transactions commit) (2–5 transactions at READ_COMMITTED / SNAPSHOT_ISOLATION /
+SERIALIZABLE, with write-skew, r-w-cycle, lost-update, long-reader and insert-under-reader patterns — commits that create
+keys the store did not hold when an older transaction took its snapshot — whose commit calls are 0–20 µs apart, i.e. inside
 the 10 µs commit latency).  Same schedule-replay technique; the Lean Spec judges the store observations with the
 clause above plus `delete` flags and `size`, and the transaction observations with: committed SERIALIZABLE
 transactions are equivalent to some serial order (permutations enumerated), SNAPSHOT_ISOLATION transactions read
@@ -255,9 +257,13 @@ class C14(core.Property):
             "btree: one client (≤ ~80 ops: 2–6 rounds of scrambled puts over 5–12 keys — strides, reversed, outside-in, random — "
             "with interleaved get/scan/size, then deletes) or 2–4 overlapping clients (writers growing the tree while readers sit in "
             "their page-read latency), orders 3–5; non-trivial when the tree reached depth ≥ 2. kv: 1–3 overlapping clients, 2–5 keys. "
-            "txn: 2–5 transactions over 2–4 hot keys on a KVStore or an order-3/4 BTree (filler keys make commits split nodes), "
+            "txn: 2–5 transactions over 2–4 hot keys on a KVStore (36 %), an order-3/4 BTree (34 %, filler keys make commits split nodes) or an "
+            "LSMTree without WAL (30 %, memtable 1–3, 2–3 levels, every compaction strategy: commits flush and compact, reads walk SSTables), "
             "isolation levels mixed or uniform, patterns write-skew / r-w cycle / lost update / long reader vs committing writers / random "
-            "programs, commit calls 0,1,2,5,9,10,11,20,100 µs apart; non-trivial when ≥ 2 clients and ≥ 1 commit. "
+            "programs, commit calls 0,1,2,5,9,10,11,20,100 µs apart; in half of the cases 0–2 hot keys are absent from the initial store, and 22 % of "
+            "the cases are insert-under-reader programs (1–2 early readers that read an existing key, sleep, then read 1–2 keys that a transaction "
+            "beginning in between has INSERTED next to overwrites of existing keys; optionally a third transaction overwrites the new key again and "
+            "a late reader begins after the insert); non-trivial when ≥ 2 clients and ≥ 1 commit. "
             "family lsm: 2–4 workers run scripts (≤40 ops in total) of put/delete/get/scan over 3–5 keys on a real LSMTree "
             "(memtable size 1–3, 2–4 levels, size-tiered / leveled / FIFO compaction, optional WAL with every sync policy, "
             "key names chosen so that the real bloom filters have false positives), start offsets and sleeps on a 250 µs grid "
@@ -286,7 +292,9 @@ class C14(core.Property):
         "Uniq: keys of every source SSTable are pairwise distinct (abs_compact_partial)",
         "3 ≤ order (btree_refines_map, btree_sorted; BTree.__init__ rejects smaller orders)",
         "ok / ok_put / get_put (serializable_commit_order, snapshot_reads_consistent): the store obeys the map laws; discharged for the "
-        "KVStore dict (kv_laws) and for every B-tree of order ≥ 3 satisfying the search-tree invariant (bt_laws, btOk_built)",
+        "KVStore dict (kv_laws), for every B-tree of order ≥ 3 satisfying the search-tree invariant (bt_laws, btOk_built) and for every LSM tree "
+        "without WAL and with ≥ 2 levels built by put_sync from the empty tree (lsm_laws, lsmOk_built: put_sync is the segments of put run "
+        "back to back on a quiescent tree)",
     ]
     partial_theorems = {
         "read_regular (hypotheses, not gaps)": "read_regular / deleted_stay_deleted / scan_sorted_live are proved for the model over every schedule of "
@@ -301,6 +309,10 @@ class C14(core.Property):
                                "transaction begin/readStart/readFetch/write/commit/abort in any order). Not proved: that the *observations* of the segment "
                                "machines (stepS / stepT under an arbitrary schedule, with first/last segment indices) satisfy judgeStore / judgeTxn; the link "
                                "is that each operation acts on the store in exactly one segment (stepS, doAct) and SM.stepT_state / SM.readAdvance_fetch. "
+                               "For the LSM store the transactional read fetches through the multi-segment get generator: the theorems cover a fetch that is "
+                               "atomic (lsm_get_first_segment: a get finishing in its first segment returns get_sync; lsm_get_quiescent: so does a get of any "
+                               "number of segments during which no commit touches the tree); a get suspended at a page read while "
+                               "another transaction commits is covered by the LSM family's read_regular and, for the transaction clauses, by the judge only. "
                                "The clause is checked on the implementation by the Lean Spec judge on every case.",
     }
 
@@ -454,6 +466,14 @@ THEOREMS = [
     "HappyModel.C14.SM.serializable_commit_order_kv",
     "HappyModel.C14.SM.serializable_commit_order_btree",
     "HappyModel.C14.SM.snapshot_reads_consistent_btree",
+    "HappyModel.C14.putSync_spec",
+    "HappyModel.C14.SM.lsm_laws",
+    "HappyModel.C14.SM.lsmOk_init",
+    "HappyModel.C14.SM.lsmOk_built",
+    "HappyModel.C14.SM.serializable_commit_order_lsm",
+    "HappyModel.C14.SM.snapshot_reads_consistent_lsm",
+    "HappyModel.C14.SM.lsm_get_first_segment",
+    "HappyModel.C14.SM.lsm_get_quiescent",
     "HappyModel.C14.SM.stepT_state",
     "HappyModel.C14.SM.readAdvance_fetch",
     "HappyModel.C14.abs_put",
